@@ -1,8 +1,8 @@
 /// concatenation of the transcript items of a sequence of values
-pub open spec fn flat_items<T: ChallengeInput>(s: Seq<T>) -> Seq<u8>
+pub open spec fn flat_items<T: ChallengeInput>(s: Seq<T>) -> Seq<Seq<u8>>
     decreases s.len()
 {
-    if s.len() == 0 { Seq::<u8>::empty() } else { flat_items(s.drop_last()) + s.last().items() }
+    if s.len() == 0 { Seq::<Seq<u8>>::empty() } else { flat_items(s.drop_last()) + s.last().items() }
 }
 
 pub proof fn lemma_flat_items_step<T: ChallengeInput>(s: Seq<T>, i: int)
@@ -14,7 +14,7 @@ pub proof fn lemma_flat_items_step<T: ChallengeInput>(s: Seq<T>, i: int)
 }
 
 pub proof fn lemma_flat_items_full<T: ChallengeInput>(s: Seq<T>)
-    ensures s.take(s.len() as int) == s, flat_items(s.take(0)) == Seq::<u8>::empty(),
+    ensures s.take(s.len() as int) == s, flat_items(s.take(0)) == Seq::<Seq<u8>>::empty(),
 {
     assert(s.take(s.len() as int) =~= s);
 }
